@@ -468,10 +468,33 @@ def _shift_consts(fn, method):
 def _type_seq(fn, method):
     """Sequence of encoded types (self type of each Felt252Serde::<method> call) in dominance order,
     consecutive duplicates merged."""
-    cs = [c for c in fn.calls() if c.path.endswith("::" + method) and SERDE in c.via and c.path.startswith("<")]
-    cs.sort(key=lambda c: _dom_depth(fn, c.bb))
+    from . import guards
+    F = guards.CURRENT_FACTS
+
+    def own(h):
+        return [c for c in h.calls() if c.path.endswith("::" + method) and SERDE in c.via and c.path.startswith("<")]
+    items = [(_dom_depth(fn, c.bb), 0, c) for c in own(fn)]
+    # a closure handed to an iterator adapter (try_for_each / map / for_each ..): its encodings happen where that
+    # call sits in the enclosing function
+    if F is not None:
+        for h in F.closures_of(fn):
+            inner = own(h)
+            if not inner:
+                continue
+            site = None
+            for x in fn.calls():
+                for a in x.args:
+                    l = op_local(a)
+                    d = fn.single_def(fn.resolve_copy(l)) if l is not None else None
+                    if d and d[0] == "stmt" and d[3][0] == "agg" and d[3][1] == "closure" and d[3][2] == h.path:
+                        site = x
+            depth = _dom_depth(fn, site.bb) if site is not None else 10 ** 6
+            inner.sort(key=lambda c: _dom_depth(h, c.bb))
+            for i, c in enumerate(inner):
+                items.append((depth, 1 + i, c))
+    items.sort(key=lambda t: (t[0], t[1]))
     seq = []
-    for c in cs:
+    for _, _, c in items:
         ty = last_seg(c.path[1:c.path.index(" as ")])
         if not seq or seq[-1] != ty:
             seq.append(ty)
